@@ -53,6 +53,16 @@ def gen_cases(tier, seed, focus="roundtrip"):
             f.update(type=2, dtype=0, kind="ml")
             specs.append(f)
         yield {"id": "big/%d" % i, "kind": "own", "files": specs, "order": None}
+    # (b3) more than fits: one addition is refused, the object is used further and its image stored (what fitted must be intact,
+    # what fits afterwards must still be stored, the image must still be a valid filesystem)
+    for i, sizes in enumerate([[65535, 65535, 60000, 100], [30000, 65535, 65535, 2000, 10], [2000] * 3 + [65535, 65535, 50000, 2300, 1]]):
+        r = rng(seed, "disk", "overfull", i)
+        specs = []
+        for j, L in enumerate(sizes):
+            f = G.gen_file(r, "disk", length=L, unique=j)
+            f.update(type=2, dtype=0, kind="ml")
+            specs.append(f)
+        yield {"id": "overfull/%d" % i, "kind": "own", "files": specs, "order": None if i != 1 else list(range(67, -1, -1))}
     # (c) permuted granule fill orders
     for i in range(1500 if thorough else 120):
         r = rng(seed, "disk", "perm", i)
